@@ -426,8 +426,9 @@ func mkMid(p string, v int) Mid {
 
 func pMid(p string, v int) *Mid { m := mkMid(p, v); return &m }
 
-func mkRoot(v int) *Root {
-	const p = "r"
+func mkRoot(v int) *Root { return mkRootP("r", v) }
+
+func mkRootP(p string, v int) *Root {
 	r := &Root{p: p, v: v, Name: p + ".Name", hidden: p + ".hidden"}
 	r.Mid = mkMid(p+".Mid", v)
 	r.PMid = pMid(p+".PMid", v)
@@ -579,12 +580,17 @@ type Case struct {
 	// ONE render evaluates the path expression that many times (every evaluation must give the same leaf)
 	Bulk int `json:"bulk,omitempty"`
 
+	// Spell: how the leaves of this data set spell the root (default r / n / x): two data sets of one
+	// Reexec case that spell it differently have no leaf text in common
+	Spell string `json:"spell,omitempty"`
+
 	pre *parsed // set while a Reexec case is judged
 }
 
 type Exec struct {
-	Variant int  `json:"variant"`
-	Ptr     bool `json:"ptr,omitempty"`
+	Variant int    `json:"variant"`
+	Ptr     bool   `json:"ptr,omitempty"`
+	Spell   string `json:"spell,omitempty"` // see Case.Spell
 }
 
 type parsed struct {
@@ -594,6 +600,9 @@ type parsed struct {
 
 // rootSpell: how the leaves of a family spell the root.
 func (c Case) rootSpell() string {
+	if c.Spell != "" {
+		return c.Spell
+	}
 	switch c.Fam {
 	case "node":
 		return "n"
@@ -656,6 +665,12 @@ func (c Case) wellFormed() string {
 		if e.Variant < 0 || e.Variant > 1 {
 			return "bad variant"
 		}
+		if e.Spell != "" && (!ident(e.Spell) || len(e.Spell) > 3) {
+			return "bad spelling of the root"
+		}
+	}
+	if c.Spell != "" && (!ident(c.Spell) || len(c.Spell) > 3) {
+		return "bad spelling of the root"
 	}
 	if c.Bulk < 0 || c.Bulk > 5000 || c.Bulk > 0 && (c.Sweep != nil || c.Twice || len(c.Cuts) > 0) {
 		return "bad bulk"
@@ -866,20 +881,23 @@ func (c Case) data() map[string]interface{} {
 		// the Node graph is large and never written (C11's templates have no assignment): the renders
 		// share one graph per recipe, the reference walks another; both are compared with a fresh one at the end
 		n := sharedNodes[c.Variant]
+		if c.Spell != "" {
+			n = mkSpelledNode(c.Spell, c.Variant)
+		}
 		if c.Ptr {
 			d[c.Root] = n
 		} else {
 			d[c.Root] = *n
 		}
 	case "ext":
-		x := mkExt("x", c.Variant, 1)
+		x := mkExt(c.rootSpell(), c.Variant, 1)
 		if c.Ptr {
 			d[c.Root] = &x
 		} else {
 			d[c.Root] = x
 		}
 	default:
-		root := mkRoot(c.Variant)
+		root := mkRootP(c.rootSpell(), c.Variant)
 		if c.Ptr {
 			d[c.Root] = root
 		} else {
@@ -890,6 +908,9 @@ func (c Case) data() map[string]interface{} {
 }
 
 func mkRootNode(v int) *Node { n := mkNode("n", nodeDepth, nodeDepth, v); return &n }
+
+// mkSpelledNode: a (smaller, fresh) Node graph whose leaves spell the root differently.
+func mkSpelledNode(spell string, v int) *Node { n := mkNode(spell, 4, nodeDepth, v); return &n }
 func mkRootExt(v int) *Ext   { x := mkExt("x", v, 1); return &x }
 
 var sharedNodes = [2]*Node{mkRootNode(0), mkRootNode(1)}
@@ -899,11 +920,18 @@ var refExts = [2]*Ext{mkRootExt(0), mkRootExt(1)}
 // refStart: the value the reference walk starts from.
 func (c Case) refStart() cur {
 	var p reflect.Value
-	switch c.Fam {
-	case "node":
+	switch {
+	case c.Fam == "node" && c.Spell != "":
+		p = reflect.ValueOf(mkSpelledNode(c.Spell, c.Variant))
+	case c.Fam == "node":
 		p = reflect.ValueOf(refNodes[c.Variant])
-	case "ext":
+	case c.Fam == "ext" && c.Spell != "":
+		x := mkExt(c.Spell, c.Variant, 1)
+		p = reflect.ValueOf(&x)
+	case c.Fam == "ext":
 		p = reflect.ValueOf(refExts[c.Variant])
+	case c.Spell != "":
+		p = reflect.ValueOf(mkRootP(c.Spell, c.Variant))
 	default:
 		p = reflect.ValueOf(refRoots[c.Variant])
 	}
@@ -1196,8 +1224,11 @@ var knownOpen = map[string]bool{
 // replayed, sequentially, before any parallel phase).
 var strictMode bool
 
+// C11_NO_OPEN=1 (debug aid): run as if knownOpen were empty, e.g. against a tree with the repair applied.
+var noOpen = os.Getenv("C11_NO_OPEN") != ""
+
 func isOpen(r *vk.Run, class string) bool {
-	return !strictMode && (knownOpen[class] || r.OpenClass(class))
+	return !strictMode && !noOpen && (knownOpen[class] || r.OpenClass(class))
 }
 
 func st(f string) Step                 { return Step{F: f} }
@@ -1547,7 +1578,7 @@ func checkCase(r *vk.Run, c Case) *vk.Fail {
 	}
 	for i, e := range c.Reexec {
 		k := c
-		k.Reexec, k.Variant, k.Ptr, k.pre = nil, e.Variant, e.Ptr, &pre
+		k.Reexec, k.Variant, k.Ptr, k.Spell, k.pre = nil, e.Variant, e.Ptr, e.Spell, &pre
 		if f := checkOne(r, k); f != nil {
 			f.Case = c
 			f.Msg = fmt.Sprintf("execution %d of %d of ONE parsed template (recipes / root forms %v): %s", i+1, len(c.Reexec), c.Reexec, f.Msg)
@@ -2752,7 +2783,7 @@ func TestProp(t *testing.T) {
 		hopPaths(n, func(steps []Step, codes string) {
 			nhop[n]++
 			num++
-			if n == 4 && r.Quick() && num%8 != int(r.Seed%8) {
+			if n == 4 && r.Quick() && num%12 != int(r.Seed%12) {
 				return
 			}
 			if n <= 3 {
@@ -2783,6 +2814,45 @@ func TestProp(t *testing.T) {
 				}
 			}
 		})
+	}
+	// consecutive indexes (two and three in a row) at the top, below an index and below a call
+	for i, tail := range [][]Step{
+		{st("Grid"), at(lit(1)), at(lit(0))},
+		{st("MM"), at(key("b")), at(key("b"))},
+		{st("MS"), at(key("b")), at(lit(0)), st("Name")},
+		{st("MS"), at(key("a")), at(lit(1)), st("Tags"), at(lit(0))},
+		{st("SM"), at(lit(1)), at(key("b")), st("Name")},
+		{st("SM"), at(lit(0)), at(key("a")), call("Hello")},
+		{st("SM"), at(lit(1)), at(key("b")), st("In"), call("Hello")},
+		{st("JS"), at(key("a")), at(key("b"))},
+		{st("JS"), at(key("a")), at(key("a")), at(lit(1)), st("Name")},
+		{st("JS"), at(key("a")), at(key("a")), at(lit(0)), st("Tags"), at(lit(1))},
+		{st("JS"), at(key("a")), at(key("a")), at(lit(1)), call("Greet", key("x"))},
+		{st("JA"), at(lit(1)), at(key("a"))},
+		{st("JA"), at(lit(1)), at(key("b")), st("Name")},
+		{st("JA"), at(lit(2)), at(lit(1)), st("In"), st("Name")},
+		{st("JA"), at(lit(2)), at(lit(0))},
+		{st("JA"), at(lit(2)), at(lit(2))},
+		{st("Grid"), at(lit(1)), at(lit(2))},
+		{st("MM"), at(key("z")), at(key("a"))},
+	} {
+		for mode := 0; mode < 2; mode++ { // all literal, all variable
+			steps := append([]Step(nil), tail...)
+			for k := range steps {
+				if len(steps[k].A) > 0 {
+					steps[k].A = append([]Arg(nil), steps[k].A...)
+					for j := range steps[k].A {
+						steps[k].A[j].Var = mode == 1
+					}
+				}
+			}
+			num++
+			place("ext", steps, num, slimUsages(steps, num, "y"))
+			below := append([]Step{st("Xs"), at(Arg{Int: true, I: i % 2, Var: mode == 0})}, steps...)
+			place("ext", below, num, slimUsages(below, num, "y"))
+			below = append([]Step{call("GetX")}, steps...)
+			place("ext", below, num, slimUsages(below, num, "y"))
+		}
 	}
 	nEnumCases := int64(len(fcases)) - nHopCases - nSpineCases
 	// a variable argument named like an earlier member of the path
@@ -2820,11 +2890,16 @@ func TestProp(t *testing.T) {
 	nre0 := int64(len(fcases))
 	for i, steps := range hopShort {
 		if r.Thorough() || i%2 == int(r.Seed%2) {
-			fcases = append(fcases, Case{Fam: "node", Root: "n", Steps: steps, Reexec: []Exec{{0, false}, {1, true}, {0, true}, {0, false}}})
+			fcases = append(fcases, Case{Fam: "node", Root: "n", Steps: steps, Reexec: []Exec{{0, false, ""}, {1, true, "o"}, {0, true, "p"}, {0, false, ""}}})
 		}
 	}
 	for _, steps := range extGood {
-		fcases = append(fcases, Case{Fam: "ext", Root: "x", Steps: steps, Reexec: []Exec{{1, true}, {0, false}, {1, false}, {1, true}}})
+		fcases = append(fcases, Case{Fam: "ext", Root: "x", Steps: steps, Reexec: []Exec{{1, true, ""}, {0, false, "y"}, {1, false, "z"}, {1, true, ""}}})
+	}
+	for i, p := range paths[:nwalk] {
+		if p.broken == "" && len(p.steps) <= 3 && (r.Thorough() || i%3 == int(r.Seed%3)) {
+			fcases = append(fcases, Case{Root: "r", Steps: p.steps, Reexec: []Exec{{0, true, ""}, {1, false, "s"}, {0, false, "t"}}})
+		}
 	}
 	nReCases := int64(len(fcases)) - nre0
 	// one render that evaluates the path very many times
@@ -2839,12 +2914,12 @@ func TestProp(t *testing.T) {
 		fcases = append(fcases, Case{Fam: "node", Variant: i % 2, Ptr: i%2 == 1, Root: "n", Steps: steps, Bulk: 1100})
 	}
 	r.Parallel(int64(len(fcases)), 0, func(i int64) { r.Check(checkCase(r, fcases[i])) })
-	r.Subspace(fmt.Sprintf("Node family: every sequence of 1-3 hops (.Kids[i] .Next .M[k] .Kid(i) .PKid(i) .GetKids()[i] .Any; %d+%d+%d sequences x 4 tails .Name .Hello() .Greet(s) .Echo(any)) and of 4 hops (%d; the quick tier takes every 8th), literal/variable pattern varying with the path, root and let names that are member names; x usages (emit once/twice, a let, a for at every index step) x 2 recipes", nhop[1]/4, nhop[2]/4, nhop[3]/4, nhop[4]), nHopCases, r.Thorough())
+	r.Subspace(fmt.Sprintf("Node family: every sequence of 1-3 hops (.Kids[i] .Next .M[k] .Kid(i) .PKid(i) .GetKids()[i] .Any; %d+%d+%d sequences x 4 tails .Name .Hello() .Greet(s) .Echo(any)) and of 4 hops (%d; the quick tier takes every 12th), literal/variable pattern varying with the path, root and let names that are member names; x usages (emit once/twice, a let, a for at every index step) x 2 recipes", nhop[1]/4, nhop[2]/4, nhop[3]/4, nhop[4]), nHopCases, r.Thorough())
 	r.Subspace("Node family: long paths: 6 and 9 hops of one kind or of alternating kinds (13 kinds) x literal/variable x usages x 2 recipes", nSpineCases, true)
-	r.Subspace("Node and Ext families: every walk of <= 3 steps over the type graph: broken walks as emit and as for iterable; completable Ext walks (embedded and promoted members, consecutive indexes, interface-typed elements, named collection types, pointer to array) x usages, and once more below x.Xs[i] / x.GetX(); x 2 recipes", nEnumCases, true)
+	r.Subspace("Node and Ext families: every walk of <= 3 steps over the type graph: broken walks as emit and as for iterable; completable Ext walks (embedded and promoted members, consecutive indexes, interface-typed elements, named collection types, pointer to array) x usages, and once more below x.Xs[i] / x.GetX(); 18 paths with two and three consecutive indexes (slice of slices, map of maps / slices, slice of maps, JSON-like nests) at the top, below x.Xs[i] and below x.GetX(), literal and variable, x usages; x 2 recipes", nEnumCases, true)
 	r.Subspace("Node family: for every path of <= 3 hops, every variable argument and every member or method name that occurs earlier in the path: the variable is given that name", nRenCases, true)
 	r.Subspace("Node and Ext families: sweeps (as above) over the hop paths (quick: <= 2 hops) and the all-variable Ext walks of <= 3 steps", nSweepCases, r.Thorough())
-	r.Subspace("ONE parsed template executed 4 times against different data (recipe 0/1, root by value / by pointer, the first again): hop paths of <= 3 hops (quick: every 2nd) and Ext walks of <= 3 steps", nReCases, r.Thorough())
+	r.Subspace("ONE parsed template executed 3-4 times against different data (recipe 0/1, root by value / by pointer, leaves that spell the root differently, the first again): hop paths of <= 3 hops (quick: every 2nd), Ext walks of <= 3 steps, completable Root walks of <= 3 steps (quick: every 3rd)", nReCases, r.Thorough())
 	r.Subspace("one render that evaluates an indexed / chained path 1100 times (state leaking from one evaluation to the next within a render)", int64(len(fcases))-nbulk0, true)
 
 	if debug {
